@@ -155,6 +155,13 @@ def get_count__total_expansion__start_size(length, total_expansion, start_size):
         # round up: cells must not be larger than requested (and there must be at least one)
         return int(np.ceil(length / d_min))
 
+    ratio = length / start_size
+    if ratio > max(1, total_expansion):
+        # length/start_size = (1 - c2c^cnt)/(1 - c2c) with c2c^(cnt - 1) = total_expansion gives c2c in closed form;
+        # no root search over a bracket that contains the pole of fcnt at cnt = 1
+        log_c2c = np.log1p((total_expansion - 1) / (ratio - total_expansion))
+        return int(np.log1p(total_expansion - 1) / log_c2c + 1) + 1
+
     def fcnt(cnt):
         return (1 - total_expansion ** (cnt / (cnt - 1))) / (
             1 - total_expansion ** (1 / (cnt - 1))
